@@ -192,15 +192,17 @@ def matches(field, exp, got, cfg):
     return exp == got
 
 
-def run_cli(workdir, cfgs, flags, srcs_text, extra_env=None):
-    """cfgs: list of dicts (one TOML each); returns (returncode, stderr, {output_file: path})"""
+def run_cli(workdir, cfgs, flags, srcs_text, extra_env=None, rewrite=True):
+    """cfgs: list of dicts (one TOML each); returns (returncode, stderr, {output_file: path}); rewrite=False: a second invocation
+    over the files the first one left (sources and TOMLs are not touched)"""
     from vmc.drive import cli
 
-    files = cli.write_sources(workdir / "src", srcs_text)
+    files = cli.write_sources(workdir / "src", srcs_text) if rewrite else [workdir / "src" / n for n, _ in srcs_text]
     args = []
     for i, c in enumerate(cfgs):
         t = workdir / f"cfg{i}.toml"
-        t.write_text(toml_text(c, files))
+        if rewrite:
+            t.write_text(toml_text(c, files))
         args.append(t)
     if not cfgs:
         args += files
@@ -230,7 +232,7 @@ def exec_field(case):
     elif mode == "file":
         file_cfg[field] = v1
         want = v1
-    elif mode == "both":
+    elif mode in ("both", "rerun"):
         file_cfg[field] = v1
         flags = cli.flags_for({field: v2})
         want = v2
@@ -242,7 +244,15 @@ def exec_field(case):
     eff[field] = want
     w = cli.mkscratch("c20")
     try:
-        r = run_cli(w, [file_cfg], flags, srcs_text)
+        if mode == "rerun":
+            # a first invocation with the TOML alone, then -- same directory, same untouched TOML -- one that adds the flag: the
+            # font of the second invocation is the font of its options, whatever an earlier invocation left behind
+            r0 = run_cli(w, [file_cfg], [], srcs_text)
+            if r0.returncode != 0:
+                return [bad("C20.build", f"{field} rerun: first invocation exits {r0.returncode}: {(r0.stderr or '')[-300:]}")]
+            r = run_cli(w, [file_cfg], flags, srcs_text, rewrite=False)
+        else:
+            r = run_cli(w, [file_cfg], flags, srcs_text)
         out = w / "build" / eff["output_file"]
         if r.returncode != 0 or not out.exists():
             return [bad("C20.build", f"{field} {mode}: exit {r.returncode}, {out.name} {'missing' if not out.exists() else ''}: {(r.stderr or '')[-300:]}")]
@@ -360,7 +370,7 @@ def run(report, tier, only=None):
     if only in (None, "conf"):
         conformance.run(report, tier)
     if only in (None, "fields"):
-        cases = [{"kind": "field", "field": f, "mode": m} for f in FIELDS for m in ("flag", "file", "both", "omitted")]
+        cases = [{"kind": "field", "field": f, "mode": m} for f in FIELDS for m in ("flag", "file", "both", "omitted", "rerun")]
         # the metric options once more in a bitmap build
         # keep_glyph_names reaches `post` in every outline flavour (CFF 1 keeps names in its own charset whatever the option says and is left out; CFF2 and glyf rely on post)
         cases += [{"kind": "field", "field": "keep_glyph_names", "mode": m, "base": {"color_format": f, "output_file": "Out.otf"}}
